@@ -83,13 +83,19 @@ impl<K: Clone + PartialEq + Eq + Hash + std::fmt::Debug + std::cmp::PartialOrd, 
         evicting.retain(|(_, e)| !entries.iter().any(|(_, d)| Arc::ptr_eq(e, d)));
     }
 
-    /// Flush key/value pairs from wmap to rmap
-    pub(crate) fn commit_wmap(&self) -> Option<Vec<(K, AsyncLruCacheEntry<V>)>> {
+    /// Move the entry of `key`, which the caller has just populated, from
+    /// wmap to rmap.
+    ///
+    /// Only this one: the other entries in wmap are still being loaded by
+    /// their owners. Published early they look like valid slices to every
+    /// lookup, and stay in the cache as empty slices if their load fails.
+    pub(crate) fn commit_wmap(&self, key: &K) -> Option<Vec<(K, AsyncLruCacheEntry<V>)>> {
         let mut w = self.wmap.lock().unwrap();
         let mut r = self.rmap.write().unwrap();
+        let populated = w.remove(key);
         let mut vec = Vec::new();
 
-        let wlen = w.len();
+        let wlen = populated.is_some() as usize;
 
         while r.len() + wlen > self.limit {
             let res = self.__pop_lru(&mut r);
@@ -109,8 +115,8 @@ impl<K: Clone + PartialEq + Eq + Hash + std::fmt::Debug + std::cmp::PartialOrd, 
             }
         }
 
-        for (key, value) in w.drain() {
-            r.insert(key, value);
+        if let Some(value) = populated {
+            r.insert(key.clone(), value);
         }
 
         if vec.is_empty() {
